@@ -19,6 +19,7 @@ RULE_TEXT = ("C07-K buffer discipline of process, decided on the linear normal f
              "(read' = 0 without copy) only when proc = 0 and the buffer is full. C07-A: every future is awaited in place, "
              "no hand-written poll machinery (a Pending can only suspend, never change results)."
              " K8: nothing in process writes into the command buffer except Adapter::read and the compaction. K5/K6 accept lazy compaction: pending bytes may stay in place while the full-buffer test on read_end fails, both offsets return to 0 when nothing is pending."
+            " C07-C04W: the shipped writers (process answers through one of them) append exactly what they are given or fail, on no path removing what they hold - rule C04-W."
              " C07-C06R: run consumes a faulty terminated message (one report, resumption behind the raw newline) - rule C06-R.")
 
 PROCESS = "microscpi::interface::Interface::process"
@@ -39,6 +40,13 @@ def run(ck):
     if lib is None:
         return
     rule_K(ck, lib, "C07")
+    # "identical to handing the messages to run one at a time": process answers through one particular writer (its
+    # heapless response buffer) - that writer, like every shipped one, appends exactly what it is given, with no capacity of
+    # its own between the value and the buffer (seeded C07-Z: write_fmt of the heapless writer formatting into a 32 byte
+    # scratch first, so that process drops a response that run with another writer delivers) - the writer rule of C04
+    import c04
+    with ck.under("C04-", "C07-C04"):
+        c04.rule_W(ck, lib)
 
 
 def rule_K(ck, lib, pfx):
